@@ -160,6 +160,10 @@ def runDropRace (_prop : String) (_f : List String) (obsS : String) : Verdict :=
   if obsS == "ok" then ⟨true, "ok", "ok", none, ["drop-race"], false⟩
   else ⟨true, obsS, obsS, some ("C09+C08", "concurrent drops of the last handles: " ++ obsS), ["drop-race"], false⟩
 
+def runDeep (_prop : String) (_f : List String) (obsS : String) : Verdict :=
+  if obsS == "ok" then ⟨true, "ok", "ok", none, ["deep-unbounded"], false⟩
+  else ⟨true, obsS, obsS, some ("C10", "an unbounded queue with a parked worker: " ++ obsS), ["deep-unbounded"], false⟩
+
 def runEmitDrop (_prop : String) (_f : List String) (obsS : String) : Verdict :=
   if obsS == "ok" then ⟨true, "ok", "ok", none, ["emit-then-last-drop"], false⟩
   else ⟨true, obsS, obsS, some ("C09+C08", "emit immediately followed by the last drop: " ++ obsS), ["emit-then-last-drop"], false⟩
